@@ -211,7 +211,8 @@ INFO = dict(
                "every context up to the bound z3 proves, for all weights with finite total weight: the next-token distribution sums to one, "
                "p_next[t] * pw(ctx) = pw(ctx+t) with EOS receiving G(ctx) (pw = independent closed-form prefix weight), dead contexts give all-zero "
                "weights, lm(x+EOS) * Z = G(x); and in an arbitrary user semiring the un-normalised next_token_weights equal the parser's weight of "
-               "ctx+t. A second pass explores every agenda tie-break order of both Earley variants.",
+               "ctx+t. A second pass explores every agenda tie-break order of both Earley variants; a third runs one longer context (one symbolic weight) "
+               "per back-end; one CONCRETE float guard (240/400-token context) pins the rescaling against IEEE underflow and is labelled as such.",
     level_note="Recursive systems use the agenda summary (C08 checks its contract); finite ones run the real agenda (tolerance cut). IEEE underflow -- the "
                "reason the rescaled variant exists -- is invisible over the reals and NOT claimed; logp (np.log) is not checked.",
     design_ref="DESIGN.md section 3 C04",
